@@ -61,7 +61,7 @@ func (cache *Cache) Sign(message []byte) (sig hotstuff.QuorumSignature, err erro
 	var key strings.Builder
 	hash := sha256.Sum256(message)
 	_, _ = key.Write(hash[:])
-	_, _ = key.Write(sig.ToBytes())
+	writeSignatureKey(&key, sig)
 	cache.insert(key.String())
 	return sig, nil
 }
@@ -71,7 +71,7 @@ func (cache *Cache) Verify(signature hotstuff.QuorumSignature, message []byte) e
 	var key strings.Builder
 	hash := sha256.Sum256(message)
 	_, _ = key.Write(hash[:])
-	_, _ = key.Write(signature.ToBytes())
+	writeSignatureKey(&key, signature)
 
 	if cache.check(key.String()) {
 		return nil
@@ -102,7 +102,7 @@ func (cache *Cache) BatchVerify(signature hotstuff.QuorumSignature, batch map[ho
 
 	var key strings.Builder
 	_, _ = key.Write(hash[:])
-	_, _ = key.Write(signature.ToBytes())
+	writeSignatureKey(&key, signature)
 
 	if cache.check(key.String()) {
 		return nil
@@ -122,3 +122,12 @@ func (cache *Cache) Combine(signatures ...hotstuff.QuorumSignature) (hotstuff.Qu
 }
 
 var _ crypto.Base = (*Cache)(nil)
+
+// writeSignatureKey writes the claimed signers followed by the signature bytes to the key.
+// The signature bytes alone do not identify the signers: an aggregate's bytes omit them.
+func writeSignatureKey(key *strings.Builder, signature hotstuff.QuorumSignature) {
+	signature.Participants().ForEach(func(id hotstuff.ID) {
+		_, _ = key.Write(id.ToBytes())
+	})
+	_, _ = key.Write(signature.ToBytes())
+}
